@@ -102,6 +102,7 @@ func (t *Transport) RoundTrip(addr string, call *Call) *Call {
 		call.done()
 		return call
 	}
+	vhook("t.got.gate", t, conn, 0, 0)
 	conn.RoundTrip(call)
 	conn.lastTime = t.now
 	checkPersistConnErr(call.Error, conn)
@@ -125,6 +126,7 @@ func (t *Transport) Go(addr, serviceMethod string, args interface{}, reply inter
 		call.done()
 		return call
 	}
+	vhook("t.got.gate", t, conn, 0, 0)
 	call := conn.Go(serviceMethod, args, reply, done)
 	conn.lastTime = t.now
 	checkPersistConnErr(call.Error, conn)
@@ -137,6 +139,7 @@ func (t *Transport) Call(addr, serviceMethod string, args interface{}, reply int
 	if err != nil {
 		return err
 	}
+	vhook("t.got.gate", t, conn, 0, 0)
 	err = conn.Call(serviceMethod, args, reply)
 	conn.lastTime = t.now
 	checkPersistConnErr(err, conn)
@@ -149,6 +152,7 @@ func (t *Transport) CallWithContext(ctx context.Context, addr string, serviceMet
 	if err != nil {
 		return err
 	}
+	vhook("t.got.gate", t, conn, 0, 0)
 	err = conn.CallWithContext(ctx, serviceMethod, args, reply)
 	conn.lastTime = t.now
 	checkPersistConnErr(err, conn)
@@ -161,6 +165,7 @@ func (t *Transport) NewStream(addr, serviceMethod string) (Stream, error) {
 	if err != nil {
 		return nil, err
 	}
+	vhook("t.got.gate", t, conn, 0, 0)
 	stream, err := conn.NewStream(serviceMethod)
 	conn.lastTime = t.now
 	checkPersistConnErr(err, conn)
@@ -173,6 +178,7 @@ func (t *Transport) Ping(addr string) error {
 	if err != nil {
 		return err
 	}
+	vhook("t.got.gate", t, conn, 0, 0)
 	err = conn.Ping()
 	conn.lastTime = t.now
 	checkPersistConnErr(err, conn)
@@ -183,6 +189,7 @@ func checkPersistConnErr(err error, pc *persistConn) {
 	if err == ErrShutdown {
 		pc.mu.Lock()
 		pc.alive = false
+		vhook("t.dead", nil, pc, 0, 0)
 		pc.mu.Unlock()
 		pc.Close()
 	}
@@ -190,6 +197,7 @@ func checkPersistConnErr(err error, pc *persistConn) {
 
 func (t *Transport) getConn(addr string) (pc *persistConn, err error) {
 	if len(addr) == 0 {
+		vhook("t.dial", t, nil, vstr(addr), 0)
 		return nil, ErrDial
 	}
 	t.connsMu.Lock()
@@ -229,6 +237,7 @@ func (t *Transport) getConn(addr string) (pc *persistConn, err error) {
 			if cq, ok := t.idleConns[addr]; ok && cq.Length() > 0 {
 				pc = cq.Dequeue()
 				pc.lastTime = t.now
+				vhook("t.idle.deq", t, pc, vstr(addr), 1)
 				pc.mu.Lock()
 				if !pc.alive {
 					pc.mu.Unlock()
@@ -241,6 +250,7 @@ func (t *Transport) getConn(addr string) (pc *persistConn, err error) {
 			} else if pc, err = t.newPersistConn(addr); err != nil {
 				return nil, err
 			}
+			vhook("t.get", t, pc, vstr(addr), 1)
 			cs.Append(pc)
 			t.conns[addr] = cs
 			return pc, nil
@@ -253,20 +263,24 @@ func (t *Transport) getConn(addr string) (pc *persistConn, err error) {
 			if pc, err = t.newPersistConn(addr); err != nil {
 				return nil, err
 			}
+			vhook("t.get", t, pc, vstr(addr), 3)
 			cs.Conns[cursor] = pc
 			return
 		}
 		pc.mu.Unlock()
+		vhook("t.get", t, pc, vstr(addr), 2)
 		return
 	}
 	if cq, ok := t.idleConns[addr]; ok && cq.Length() > 0 {
 		pc = cq.Dequeue()
 		pc.lastTime = time.Now()
+		vhook("t.idle.deq", t, pc, vstr(addr), 4)
 	} else {
 		if pc, err = t.newPersistConn(addr); err != nil {
 			return nil, err
 		}
 	}
+	vhook("t.get", t, pc, vstr(addr), 4)
 	cs := &conns{addr: addr}
 	cs.Append(pc)
 	t.conns[addr] = cs
@@ -282,8 +296,10 @@ func (t *Transport) newPersistConn(addr string) (*persistConn, error) {
 		conn, err = t.Dial(t.Network, addr, t.Codec)
 	}
 	if err != nil {
+		vhook("t.dial", t, nil, vstr(addr), 0)
 		return nil, ErrDial
 	}
+	vhook("t.dial", t, conn, vstr(addr), 1)
 	return &persistConn{
 		Conn:     conn,
 		alive:    true,
@@ -301,6 +317,7 @@ func (t *Transport) run() {
 		case <-ticker.C:
 			t.now = time.Now()
 			t.connsMu.Lock()
+			vhook("t.tick", t, nil, vnano(t.now), 0)
 			for _, cs := range t.conns {
 				length := len(cs.Conns)
 				for i := 0; i < length; i++ {
@@ -309,8 +326,10 @@ func (t *Transport) run() {
 						cs.Delete(i)
 						i--
 						length--
+						vhook("t.retire", t, pc, vnano(pc.lastTime), vnumcalls(pc))
 						if cq, ok := t.idleConns[cs.addr]; ok {
 							if !t.idleConns[cs.addr].Enqueue(pc) {
+								vhook("t.overflow.close", t, pc, 0, vnumcalls(pc))
 								pc.Close()
 							}
 						} else {
@@ -331,6 +350,7 @@ func (t *Transport) run() {
 				for i := 0; i < length; i++ {
 					if cq.Rear().value.lastTime.Add(t.IdleConnTimeout).Before(time.Now()) {
 						pc := cq.Dequeue()
+						vhook("t.idle.close", t, pc, vnano(pc.lastTime), vnumcalls(pc))
 						pc.Close()
 					} else {
 						cq.Rear().value.Ping()
@@ -341,9 +361,11 @@ func (t *Transport) run() {
 				}
 			}
 
+			vhook("t.tick.end", t, nil, 0, 0)
 			t.connsMu.Unlock()
 		case <-t.done:
 			ticker.Stop()
+			vhook("t.run.exit", t, nil, 0, 0)
 			return
 		}
 	}
@@ -361,6 +383,7 @@ func (t *Transport) CloseIdleConnections() {
 				cs.Delete(i)
 				i--
 				length--
+				vhook("t.closeidle.active", t, pc, 0, vnumcalls(pc))
 				pc.Close()
 			}
 		}
@@ -373,6 +396,7 @@ func (t *Transport) CloseIdleConnections() {
 		length := cq.Length()
 		for i := 0; i < length; i++ {
 			pc := cq.Dequeue()
+			vhook("t.closeidle.idle", t, pc, 0, vnumcalls(pc))
 			pc.Close()
 		}
 		delete(t.idleConns, cq.addr)
@@ -389,11 +413,13 @@ func (t *Transport) Close() error {
 	if !t.running {
 		return nil
 	}
+	vhook("t.close", t, nil, 0, 0)
 	for _, cs := range t.conns {
 		length := len(cs.Conns)
 		for i := 0; i < length; i++ {
 			pc := cs.Conns[i]
 			pc.Close()
+			vhook("t.close.conn", t, pc, 0, 0)
 		}
 	}
 	t.conns = make(map[string]*conns)
@@ -403,12 +429,14 @@ func (t *Transport) Close() error {
 			for i := 0; i < length; i++ {
 				pc := cq.Dequeue()
 				pc.Close()
+				vhook("t.close.conn", t, pc, 1, 0)
 			}
 		}
 		delete(t.idleConns, cq.addr)
 	}
 	t.idleConns = make(map[string]*connQueue)
 	close(t.done)
+	vhook("t.closed", t, nil, 0, 0)
 	return nil
 }
 
